@@ -148,7 +148,7 @@ func run(c *hl.Ctx) error {
 	}
 	g := &lay.Gen{R: r}
 	var jobs []lay.Job
-	nProg := lay.DevN(c.Pick(300, 25000))
+	nProg := lay.DevN(c.Pick(300, 6000))
 	weights := []string{"core", "core", "styled", "styled", "styled", "grid", "near", "nested", "nested", "names", "boards", "seq"}
 	for i := 0; i < nProg; i++ {
 		p := weights[i%len(weights)]
@@ -157,8 +157,12 @@ func run(c *hl.Ctx) error {
 			jobs = append(jobs, lay.Job{Src: src, Engine: e, Tag: p})
 		}
 	}
-	res := lay.RunAll(jobs, runtime.NumCPU())
+	res := lay.RunAll(jobs, runtime.NumCPU(), lay.QuickBudget(c.Quick()), 32)
 	for i, rr := range res {
+		if rr == nil {
+			c.Count("budget:not-run")
+			continue
+		}
 		c.Emit(lay.GeoCase(rr))
 		c.Count("geo:" + jobs[i].Tag + ":" + rr.Engine)
 	}
